@@ -324,7 +324,17 @@ pub fn generate_c16(seed: u64, run: u64, corpus: &Corpus, tier: Tier, stats: &mu
     let label = if rng.chance(7, 10) { None } else { Some(pick_label(&mut rng)) };
     let opts = gen_options(&mut rng, label);
     let form = gen_path_form(&mut rng, 9);
-    let path = if form == PathForm::Explicit { "simfs:/src/unit1.pas".to_string() } else { "src/sub/unit1.pas".to_string() };
+    // (now and then a name with characters that mean something to a glob matcher, named literally)
+    let special = if form != PathForm::Glob && rng.chance(1, 10) {
+        *rng.pick(&["Unit1[1]", "[old]/unit1", "unit 1 (copy)", "unit{1}"])
+    } else {
+        "unit1"
+    };
+    let path = if form == PathForm::Explicit {
+        format!("simfs:/src/{special}.pas")
+    } else {
+        format!("src/sub/{special}.pas")
+    };
     // one content; contents the pure formatter chokes on by itself (C04's subject, not this
     // property's) are replaced, at most twice
     let mut attempt = 0;
@@ -862,8 +872,8 @@ fn generate_c18_wide(seed: u64, run: u64, rng: &mut Rng, tier: Tier, stats: &mut
     let mut order: Vec<bool> = vec![false; failing];
     order.extend(vec![true; good]);
     rng.shuffle(&mut order);
-    // in check mode a failing file can also be an existing, unformatted one
-    let unformatted_fails = mode == Mode::Check && rng.chance(1, 2);
+    // in check mode a failing file can also be an existing, unformatted one (many open files)
+    let unformatted_fails = mode == Mode::Check && rng.chance(2, 3);
     for (i, is_good) in order.iter().enumerate() {
         let path = format!("simfs:/w{}/f{i}.pas", i % 7);
         if *is_good {
@@ -975,6 +985,19 @@ fn sibling_unit(name: &str, skeleton_seed: u64, variant: u64, procs: usize) -> S
         }
         out.push_str("end;\n\n");
     }
+    // now and then a routine whose blocks are nested very deeply (recursion depth of the parser
+    // and formatter grows with it; pool threads have smaller stacks than the main thread)
+    if sk.chance(1, 6) {
+        let depth = *sk.pick(&[200u64, 800, 2000, 4000, 7000]) as usize;
+        out.push_str("procedure Deep;\n");
+        for _ in 0..depth {
+            out.push_str("begin\n");
+        }
+        out.push_str("X := 1;\n");
+        for _ in 0..depth {
+            out.push_str("end;\n");
+        }
+    }
     out.push_str("end.\n");
     out
 }
@@ -1066,6 +1089,12 @@ pub fn generate_c18(seed: u64, run: u64, corpus: &Corpus, tier: Tier, stats: &mu
         let dir = rng.below(3);
         let name = if rng.chance(1, 6) { "same".to_string() } else { format!("u{i}") };
         let prefix = if form == PathForm::Explicit { "simfs:/" } else { "root/" };
+        // names with characters that mean something to a glob matcher, named literally
+        let name = if form != PathForm::Glob && rng.chance(1, 12) {
+            format!("{name}{}", *rng.pick(&["[1]", "[old]", " copy", "(2)", "{x}"]))
+        } else {
+            name
+        };
         // (glob patterns here select *.pas only; elsewhere the other source extensions occur too,
         // which also gives same-stem siblings such as same.pas / same.dpr in one directory)
         let ext = match form {
@@ -1219,6 +1248,17 @@ persistent: false,
     }
     if rng.chance(1, 30) {
         case.extra_args = vec!["--cursor=0,5".into()];
+        if n >= 2 && rng.chance(1, 2) {
+            // stderr that cannot be written to (2>/dev/full): eprintln! panics, like std's; with
+            // two or more files the cursors are dropped, so a correct run never prints there
+            case.faults.push(Fault {
+                target: "<stderr>".into(),
+                op: OpKind::Eprint,
+                nth: 0,
+                kind: FaultKind::Enospc,
+                persistent: true,
+            });
+        }
     } else if rng.chance(1, 8) {
         case.extra_args = gen_log_level_args(&mut rng);
     }
